@@ -51,6 +51,13 @@ func genShape(r *gen.Rand) ShapeCase {
 	if (s.Op == "name" || s.Op == "in") && s.Key == "length" {
 		s.Key = "8" // length of a bridged slice is a property of its own kind, not a key
 	}
+	if s.Container == "rec" && r.Chance(3, 4) {
+		// a bridged struct: aim at its members
+		s.Key = []string{"Name", "Name", "ID", "shBase"}[r.Intn(4)]
+		if r.Chance(1, 2) {
+			s.Op = []string{"prop", "index", "delete", "name"}[r.Intn(4)]
+		}
+	}
 	if s.Op == "call" {
 		s.Container = []string{"fd", "fc", "fb", "fs", "flen", "fkey", "frec"}[r.Intn(7)]
 		nums := []string{"5", "1.5", "1e9", "-0", "0.000001", "1e-7", "1e21", "Infinity", "-Infinity", "NaN", "123456789012345680000", "9007199254740993", "true", "'x'", "null", "({length: -1})", "({length: 4294967295})", "({length: 2, 0: 1, 1: 2})", "({a: 5})", "({ID: 1, Name: 'n'})", "[1, 2]"}
@@ -86,7 +93,9 @@ func (k *checker) checkShape(s ShapeCase) bool {
 	case "index":
 		src = fmt.Sprintf("%s[%q] = %s; 'ok'", c, s.Key, s.Val)
 	case "prop":
-		src = fmt.Sprintf("Object.defineProperty(%s, %q, {value: %s, writable: true, enumerable: true, configurable: true}); 'ok'", c, s.Key, s.Val)
+		// either refused loudly, or taken: then the name denotes one property (not a stored duplicate beside the Go member)
+		attrs := []string{"writable: true, enumerable: true, configurable: true", "enumerable: true", ""}[len(s.Key)%3]
+		src = fmt.Sprintf("Object.defineProperty(%s, %q, {value: %s, %s}); var n = 0, ks = Object.getOwnPropertyNames(%s); for (var i = 0; i < ks.length; i++) if (ks[i] === %q) n++; n <= 1 ? 'ok' : 'listed ' + n + ' times: ' + ks.join()", c, s.Key, s.Val, attrs, c, s.Key)
 	case "push":
 		src = fmt.Sprintf("Array.prototype.push.call(%s, %s); Array.prototype.reverse.call(%s); 'ok'", c, s.Val, c)
 	case "delete":
@@ -110,7 +119,7 @@ func (k *checker) checkShape(s ShapeCase) bool {
 	}
 	k.stage = "shape:" + s.Op
 	out := ox.Run(vm, "try { "+strings.Replace(src, "; 'ok'", "", 1)+"; 'ok' } catch (e) { (e instanceof TypeError || e instanceof RangeError) ? 'loud:' + e.name : 'other:' + (e && e.name) + ':' + e }")
-	if s.Op == "in" || s.Op == "name" || (s.Op == "call" && c == "fs") {
+	if s.Op == "in" || s.Op == "name" || s.Op == "prop" || (s.Op == "call" && c == "fs") {
 		out = ox.Run(vm, "try { "+src+" } catch (e) { (e instanceof TypeError || e instanceof RangeError) ? 'loud:' + e.name : 'other:' + (e && e.name) + ':' + e }")
 	}
 	k.c.Eval(1)
